@@ -584,6 +584,13 @@ def scen_time(rng, n):
     for op in ("(debounce 10 %s)", "(sample %s (interval 10))", "(delay 4 %s)", "(timeout 30 %s)"):
         x = op % "(tsrc 0 (15 (n 1)) (3 (n 2)) (3 (n 3)) (40 c))"
         out.append(("(conc C16-%d (pipe (def x %s) (sub (ref x) (react)) (unsub-after 0 23) (settle 30) (sub (ref x) (react)) (unsub-after 1 120)))" % (i, x), ("subseq2", [1, 2, 3]))); i += 1
+    # timeout fed by OVERLAPPING next calls: the subscriber pushes into the feeding subject from inside its callback, or two
+    # threads emit at the same instant: every timer that was armed must be cancelled by the next item (no TimedOut while
+    # items keep arriving within the period)
+    out.append(("(conc C16-%d (pipe (subject a plain) (sub (timeout 20 (ref a)) (react (0 (hnext a 2)))) (hnext a 1) (settle 10) (hnext a 3) (settle 15) (hnext a 4) (settle 60)))" % i, ("timeout-any", 20))); i += 1
+    out.append(("(conc C16-%d (pipe (subject a plain) (sub (timeout 20 (ref a)) (react (0 (hnext a 2)) (1 (hnext a 5)))) (hnext a 1) (settle 15) (hnext a 3) (settle 15) (hnext a 4) (settle 60)))" % i, ("timeout-any", 20))); i += 1
+    out.append(("(conc C16-%d (pipe (sub (timeout 20 (merge (tsrc 0 (0 (n 1)) (15 (n 2)) (15 (n 3))) (tsrc 1 (0 (n 11)) (15 (n 12)) (15 (n 13))))) (react)) (settle 90)))" % i, ("timeout-any", 20))); i += 1
+    out.append(("(conc C16-%d (pipe (subject a plain) (sub (timeout 20 (ref a)) (react)) (drive a (0 (n 1)) (12 (n 2)) (12 (n 3))) (drive a (0 (n 11)) (12 (n 12)) (12 (n 13))) (settle 90)))" % i, ("timeout-any", 20))); i += 1
     return out
 
 
@@ -650,6 +657,16 @@ def oracle_time(payload, info):
         want = lean_expected("delay %d %s c:1" % (dd, " ".join("%d:%d:%d" % (gp, k + 1, handling[k]) for k, gp in enumerate(gaps))))
         if got != want:
             return "delay(%d) over gaps %s (handling %s) delivered %s, expected %s" % (dd, gaps, handling, got, want)
+    elif kind == "timeout-any":
+        dd = info[1]
+        errs = [(k, g) for k, g in enumerate(got) if g[0][0] == "e"]
+        if not errs:
+            return "timeout(%d): the source went silent and no TimedOut was delivered: %s" % (dd, got)
+        k, (ev, t) = errs[0]
+        items = [g for g in got[:k] if g[0][0] == "n"]
+        if items and t < items[-1][1] + dd:
+            return ("timeout(%d) failed at instant %d although the latest item had been delivered at %d (a timer armed for an earlier item was "
+                    "not cancelled): %s" % (dd, t, items[-1][1], got))
     elif kind == "subseq2":
         src = ["n%d" % v for v in info[1]]
         for u in (0, 1):
